@@ -146,6 +146,9 @@ func addRelation(c *api.Context, id b6.RelationID, tags b6.Collection[interface{
 
 // Add a collection feature with the given id, tags and items.
 func addCollection(c *api.Context, id b6.CollectionID, tags b6.Collection[any, b6.Tag], collection b6.UntypedCollection) (ingest.Change, error) {
+	if collection == nil {
+		return nil, fmt.Errorf("add-collection: expected a collection, found nil")
+	}
 	feature := &ingest.CollectionFeature{
 		CollectionID: id,
 	}
